@@ -282,8 +282,18 @@ CMP_NEG = {"Lt": "Ge", "Le": "Gt", "Gt": "Le", "Ge": "Lt", "Eq": "Ne", "Ne": "Eq
 
 
 def _through_casts(t):
-    while t[0] == "cast" and t[3].startswith("IntToInt"):
-        t = t[1]
+    """the value behind integer casts and behind the Ok payload of an integer try_from (which is the converted value itself)"""
+    n = 0
+    while n < 8:
+        n += 1
+        if t[0] == "cast" and t[3].startswith("IntToInt"):
+            t = t[1]
+            continue
+        if t[0] == "field" and t[2] == 0 and t[1][0] == "as" and len(t[1]) > 2 and t[1][2] == "Ok" and t[1][1][0] == "call" and isinstance(t[1][1][1], str) \
+                and "::<impl std::convert::TryFrom<" in t[1][1][1] and t[1][1][1].endswith("::try_from") and t[1][1][2]:
+            t = t[1][1][2][0]
+            continue
+        break
     return t
 
 
@@ -372,6 +382,17 @@ def cond_constraints(conds, subjects):
                             done = apply(n, "Gt", hi_)
                         elif cur[1] is not None and cur[1] <= hi_:
                             done = apply(n, "Lt", lo_)
+        elif d[0] == "discr" and d[1][0] == "call" and isinstance(d[1][1], str) and "::<impl std::convert::TryFrom<" in d[1][1] and d[1][1].endswith("::try_from"):
+            # `T::try_from(v)` is Ok exactly when v fits T
+            import re as _re
+            m_ = _re.search(r"TryFrom<(\w+)> for (\w+)>::try_from$", d[1][1])
+            n = name_of(d[1][2][0]) if d[1][2] else None
+            rng = {"u8": (0, 255), "u16": (0, 65535), "u32": (0, (1 << 32) - 1), "u64": (0, (1 << 64) - 1), "usize": (0, (1 << 64) - 1),
+                   "i8": (-128, 127), "i16": (-32768, 32767), "i32": (-(1 << 31), (1 << 31) - 1), "i64": (-(1 << 63), (1 << 63) - 1), "isize": (-(1 << 63), (1 << 63) - 1)}
+            ok_branch = v == 0 or (isinstance(v, tuple) and v[0] == "else" and 0 not in v[1] and 1 in v[1])
+            if m_ and n is not None and m_.group(2) in rng and ok_branch:
+                lo_, hi_ = rng[m_.group(2)]
+                done = apply(n, "Ge", lo_) and apply(n, "Le", hi_)
         else:
             n = name_of(d)
             if n is not None:
